@@ -129,8 +129,8 @@ Definition with_counter (s : mstate) (x : value) (k : Z) : mstate :=
 
 Lemma sim_with_counter ss s x k : sim ss s -> sim ss (with_counter s x k).
 Proof.
-  intros H. destruct H as [Hr Hf Hg Hfr Hl Hw Hu]. constructor; cbn; try assumption.
-  destruct (m_frames s) as [|[p b r|lv d] t]; try assumption.
+  intros H. destruct H as [Hr Hf Hg Hv Hst Hw Hu]. constructor; cbn [with_counter m_regs m_globals m_frames m_world m_unnamed]; try assumption;
+  destruct (m_frames s) as [|[p b r|lv d] t]; assumption.
 Qed.
 
 Lemma put_counter s lv d r x k : m_frames s = FLoop lv d :: r ->
@@ -296,6 +296,33 @@ Proof. intros Hf. apply (estep1 im s _ _ _ Hf). reflexivity. Qed.
 Lemma sim_with_pc ss s pc : sim ss s -> sim ss (with_pc s pc).
 Proof. intros H. destruct H. constructor; assumption. Qed.
 
+(* END_LOOP drops the loop frame and anything the loop left on the stack *)
+Lemma end_loop_step im ss s0 s lv r :
+  sim ss s0 -> fetch im (m_pc s0) = Some (I0 OC_END_LOOP) ->
+  m_frames s0 = FLoop lv (zlength (m_stack s)) :: r -> erase r = erase (m_frames s) -> m_stack s0 = m_stack s ->
+  exists s1, esteps 1 im s0 = Some (s1, []) /\ sim ss s1 /\ m_pc s1 = m_pc s0 + 1 /\ (m_stack s1, fr s1) = (m_stack s, fr s).
+Proof.
+  intros Hs0 Hf Hfr Her Hst.
+  set (d := zlength (m_stack s)) in *.
+  set (s1 := advance (with_stack (with_frames s0 r) (truncate_to (m_stack s0) d))).
+  exists s1.
+  assert (Htr : truncate_to (m_stack s0) d = m_stack s).
+  { rewrite Hst. unfold d. destruct (m_stack s) as [|v k]; cbn [truncate_to]; [reflexivity|]. rewrite Z.leb_refl. reflexivity. }
+  split; [apply (estep1 im s0 _ _ _ Hf); cbn [Machine.exec i_op I0]; rewrite Hfr; reflexivity|].
+  split.
+  { destruct Hs0 as [Hr Hfu Hg Hv Hse Hw Hu]. rewrite Hfr in Hv, Hse. constructor; cbn; assumption. }
+  split; [reflexivity|]. unfold fr. change (m_stack s1) with (truncate_to (m_stack s0) d). change (m_frames s1) with r. rewrite Htr, Her. reflexivity.
+Qed.
+
+(* what a statement leaves of a loop frame: the frame itself, over frames that differ at most in their dictionaries *)
+Lemma loop_frame_kept s4 s3 s lv d r :
+  (m_stack s4, fr s4) = (m_stack s3, fr s3) -> m_stack s3 = m_stack s -> m_frames s3 = FLoop lv d :: r -> erase r = erase (m_frames s) ->
+  m_stack s4 = m_stack s /\ exists r', m_frames s4 = FLoop lv d :: r' /\ erase r' = erase (m_frames s).
+Proof.
+  intros H Hsk Hfk Her. injection H as H1 H2. split; [rewrite H1; exact Hsk|].
+  unfold fr in H2. rewrite Hfk in H2. destruct (erase_loop_inv _ _ _ _ H2) as [r' [Hr' He']]. exists r'. split; [exact Hr'|]. rewrite He'. exact Her.
+Qed.
+
 Theorem simple_simulation :
   (forall st, Simple st ->
      forall im ss s sig ss' fuel, sim ss s -> code_at im (m_pc s) (c_stmt rt mt false None st) ->
@@ -370,7 +397,7 @@ Proof.
       split; [eapply esteps_app; [exact Hn|eapply esteps_app; [exact Ej|eapply esteps_app; [exact E3|exact Ej2]]]|].
       split; [apply sim_with_pc; exact Hs3|].
       split; [cbn [with_pc m_pc]; rewrite Hpc3; unfold s2; cbn [with_pc m_pc]; rewrite Hk; unfold zlength; rewrite !app_length, !Nat2Z.inj_add; cbn [length]; unfold zlength in k; fold k; lia|].
-      split; [change (m_stack (with_pc s3 (m_pc s3 + (zlength tb + 1))), m_frames (with_pc s3 (m_pc s3 + (zlength tb + 1)))) with (m_stack s3, m_frames s3); rewrite Hst3; reflexivity|]. cbn [app]. rewrite app_nil_r. exact Ht3.
+      split; [exact Hst3|]. cbn [app]. rewrite app_nil_r. exact Ht3.
     + (* else-branch *)
       set (s2 := with_pc s1 (m_pc s1 + (zlength ta + 2))) in *.
       assert (Hb2 : code_at im (m_pc s2) tb).
@@ -406,12 +433,12 @@ Proof.
     assert (E1 : esteps 1 im s = Some (s1, [])) by (apply (estep1 im s _ _ _ Hfl); reflexivity).
     assert (Hs1 : sim ss s1) by (destruct Hsim; constructor; cbn; assumption).
     (* the iteration, by induction on the fuel of the reference semantics *)
-    assert (Hiter : forall f ss1 sx sg ssx lv,
-              sim ss1 sx -> m_pc sx = P0 + 1 -> m_frames sx = FLoop lv d :: m_frames s -> m_stack sx = m_stack s ->
+    assert (Hiter : forall f ss1 sx sg ssx lv r,
+              sim ss1 sx -> m_pc sx = P0 + 1 -> m_frames sx = FLoop lv d :: r -> erase r = erase (m_frames s) -> m_stack sx = m_stack s ->
               iterate rt mt f false ss1 (Some c) None None None a = ROk sg ssx ->
               sg = SigNormal /\ exists n sy evs, esteps n im sx = Some (sy, evs) /\ sim ssx sy /\ m_pc sy = P0 + (kT + kB + 4) /\
-                                           (m_stack sy, m_frames sy) = (m_stack s, m_frames s) /\ rev (s_trace ssx) = rev (s_trace ss1) ++ evs).
-    { induction f as [|f IHf]; intros ss1 sx sg ssx lv Hsx Hpcx Hfrx Hstx Hit; [discriminate|].
+                                           (m_stack sy, fr sy) = (m_stack s, fr s) /\ rev (s_trace ssx) = rev (s_trace ss1) ++ evs).
+    { induction f as [|f IHf]; intros ss1 sx sg ssx lv r Hsx Hpcx Hfrx Herx Hstx Hit; [discriminate|].
       rewrite iterate_while in Hit.
       destruct (eval_rval rt mt f false ss1 c) as [x sa|e sa|sa] eqn:Ev; cbn [sbind] in Hit; try discriminate.
       assert (HcTx : code_at im (m_pc sx) T) by (rewrite Hpcx; exact HcT).
@@ -434,13 +461,11 @@ Proof.
         { rewrite Hpc4. unfold s3. cbn [with_pc m_pc]. rewrite Hpc2. fold B. fold kB. exact Hfjb. }
         pose proof (jump_always im s4 (- (kT + 1 + kB)) Hfjb4) as Ejb.
         set (s5 := with_pc s4 (m_pc s4 + - (kT + 1 + kB))) in *.
-        assert (Hst4' : m_stack s4 = m_stack s /\ m_frames s4 = FLoop lv d :: m_frames s).
-        { injection Hst4 as Hsk Hfk. unfold s3 in Hsk, Hfk. cbn [with_pc m_stack m_frames] in Hsk, Hfk. unfold s2 in Hsk, Hfk. cbn [put_vm m_stack m_frames] in Hsk, Hfk.
-          rewrite Hsk, Hfk. split; assumption. }
-        destruct Hst4' as [Hsk4 Hfk4].
-        destruct (IHf sb s5 sg ssx lv (sim_with_pc sb s4 _ Hs4)) as [Hsg (n6 & s6 & e6 & E6 & Hs6 & Hpc6 & Hst6 & Ht6)].
+        destruct (loop_frame_kept s4 s3 s lv d r Hst4 Hstx Hfrx Herx) as [Hsk4 (r4 & Hfk4 & Her4)].
+        destruct (IHf sb s5 sg ssx lv r4 (sim_with_pc sb s4 _ Hs4)) as [Hsg (n6 & s6 & e6 & E6 & Hs6 & Hpc6 & Hst6 & Ht6)].
         { unfold s5. cbn [with_pc m_pc]. rewrite Hpc4. unfold s3. cbn [with_pc m_pc]. rewrite Hpc2. fold B. fold kB. lia. }
         { exact Hfk4. }
+        { exact Her4. }
         { exact Hsk4. }
         { exact Hit. }
         split; [exact Hsg|]. exists (n + (1 + (n3 + (1 + n6))))%nat, s6, ([] ++ ([] ++ (e4 ++ ([] ++ e6)))).
@@ -452,21 +477,14 @@ Proof.
         assert (Hfe3 : fetch im (m_pc s3) = Some (I0 OC_END_LOOP)).
         { unfold s3. cbn [with_pc m_pc]. rewrite Hpc2.
           replace (P0 + 1 + kT + (kB + 2)) with (P0 + 1 + kT + 1 + kB + 1) by lia. exact Hfe. }
-        assert (Hfr3 : m_frames s3 = FLoop lv d :: m_frames s) by exact Hfrx.
-        assert (Hst3 : m_stack s3 = m_stack s) by exact Hstx.
-        set (s4 := advance (with_stack (with_frames s3 (m_frames s)) (truncate_to (m_stack s3) d))).
-        assert (E4 : esteps 1 im s3 = Some (s4, [])).
-        { apply (estep1 im s3 _ _ _ Hfe3). cbn [Machine.exec i_op I0]. rewrite Hfr3. reflexivity. }
-        assert (Htr : truncate_to (m_stack s3) d = m_stack s).
-        { rewrite Hst3. unfold d. destruct (m_stack s) as [|v k]; cbn [truncate_to]; [reflexivity|]. rewrite Z.leb_refl. reflexivity. }
+        destruct (end_loop_step im ss1 s3 s lv r (sim_with_pc ss1 s2 _ Hs2) Hfe3 Hfrx Herx Hstx) as (s4 & E4 & Hs4 & Hpc4 & Hst4).
         split; [auto|]. exists (n + (1 + 1))%nat, s4, ([] ++ ([] ++ [])).
         split; [eapply esteps_app; [exact Hn|eapply esteps_app; [exact Ej|exact E4]]|].
-        split.
-        { destruct Hs2 as [Hr Hfu Hg Hfr Hl Hw Hu]. constructor; cbn; try assumption. exact (sim_frames _ _ Hsim). }
-        split; [change (m_pc s4) with (m_pc s2 + (kB + 2) + 1); rewrite Hpc2; lia|].
-        split; [change (m_stack s4, m_frames s4) with (truncate_to (m_stack s3) d, m_frames s); rewrite Htr; reflexivity|].
+        split; [exact Hs4|].
+        split; [rewrite Hpc4; unfold s3; cbn [with_pc m_pc]; rewrite Hpc2; lia|].
+        split; [exact Hst4|].
         rewrite app_nil_r. reflexivity. }
-    destruct (Hiter fuel ss s1 sig ss' [] Hs1 eq_refl eq_refl eq_refl He) as [Hsig (n & sy & evs & En & Hsy & Hpcy & Hsty & Hty)].
+    destruct (Hiter fuel ss s1 sig ss' [] (m_frames s) Hs1 eq_refl eq_refl eq_refl eq_refl He) as [Hsig (n & sy & evs & En & Hsy & Hpcy & Hsty & Hty)].
     split; [exact Hsig|]. exists (1 + n)%nat, sy, ([] ++ evs).
     split; [eapply esteps_app; [exact E1|exact En]|]. split; [exact Hsy|].
     split; [rewrite Hpcy; unfold kT, kB, zlength; rewrite !app_length; cbn [length]; rewrite !Nat2Z.inj_add; lia|].
@@ -502,16 +520,16 @@ Proof.
     set (s2 := with_counter s1 cnt kN) in *.
     assert (Hs2 : sim ss s2) by (apply sim_with_counter; exact Hs1).
     (* the iteration *)
-    assert (Hiter : forall f ss1 sx sg ssx lv c0,
-              sim ss1 sx -> m_pc sx = P0 + 1 + kN -> m_frames sx = FLoop lv d :: m_frames s -> lv_get lv LV_COUNTER = Some c0 -> m_stack sx = m_stack s ->
+    assert (Hiter : forall f ss1 sx sg ssx lv c0 r,
+              sim ss1 sx -> m_pc sx = P0 + 1 + kN -> m_frames sx = FLoop lv d :: r -> erase r = erase (m_frames s) -> lv_get lv LV_COUNTER = Some c0 -> m_stack sx = m_stack s ->
               iterate rt mt f false ss1 None (Some c0) None None a = ROk sg ssx ->
               sg = SigNormal /\ exists n sy evs, esteps n im sx = Some (sy, evs) /\ sim ssx sy /\ m_pc sy = P0 + (kN + kB + 12) /\
-                                           (m_stack sy, m_frames sy) = (m_stack s, m_frames s) /\ rev (s_trace ssx) = rev (s_trace ss1) ++ evs).
-    { induction f as [|f IHf]; intros ss1 sx sg ssx lv c0 Hsx Hpcx Hfrx Hlvx Hstx Hit; [discriminate|].
+                                           (m_stack sy, fr sy) = (m_stack s, fr s) /\ rev (s_trace ssx) = rev (s_trace ss1) ++ evs).
+    { induction f as [|f IHf]; intros ss1 sx sg ssx lv c0 r Hsx Hpcx Hfrx Herx Hlvx Hstx Hit; [discriminate|].
       rewrite iterate_count in Hit.
       destruct (positive c0) as [go|e] eqn:Epos; cbn [lift_res sbind] in Hit; [|discriminate].
       assert (HcTx : code_at im (m_pc sx) counter_test) by (rewrite Hpcx; exact HcT).
-      destruct (counter_test_steps im sx lv d (m_frames s) c0 go Hfrx Hlvx Epos HcTx) as (res & Et & Hres).
+      destruct (counter_test_steps im sx lv d r c0 go Hfrx Hlvx Epos HcTx) as (res & Et & Hres).
       set (s3 := put_vm sx (DReg R_RESULT) res 4) in *.
       assert (Hs3 : sim ss1 s3) by (apply sim_put_reg_hidden; [exact Hsx|reflexivity]).
       assert (Hr3 : rf_get (m_regs s3) R_RESULT = Some res) by (unfold s3; cbn [put_vm m_regs]; apply rf_get_set_same).
@@ -525,22 +543,20 @@ Proof.
         assert (HcB4 : code_at im (m_pc s4) B) by (unfold s4; cbn [with_pc m_pc]; rewrite Hpc3; exact HcB).
         destruct (IHa im ss1 s4 sgb sb f (sim_with_pc ss1 s3 _ Hs3) HcB4 Eb) as [Hsgb (n5 & s5 & e5 & E5 & Hs5 & Hpc5 & Hst5 & Ht5)]. subst sgb.
         destruct (sub1 c0) as [c1|e] eqn:Esub; cbn [bind] in Hit; [|discriminate].
-        assert (Hst5' : m_stack s5 = m_stack s /\ m_frames s5 = FLoop lv d :: m_frames s).
-        { injection Hst5 as Hsk Hfk. unfold s4 in Hsk, Hfk. cbn [with_pc m_stack m_frames] in Hsk, Hfk. unfold s3 in Hsk, Hfk. cbn [put_vm m_stack m_frames] in Hsk, Hfk.
-          rewrite Hsk, Hfk. split; assumption. }
-        destruct Hst5' as [Hsk5 Hfk5].
+        destruct (loop_frame_kept s5 s4 s lv d r Hst5 Hstx Hfrx Herx) as [Hsk5 (r5 & Hfk5 & Her5)].
         assert (Hpc5' : m_pc s5 = P0 + 1 + kN + 4 + 1 + kB) by (rewrite Hpc5; unfold s4; cbn [with_pc m_pc]; rewrite Hpc3; fold B; fold kB; reflexivity).
         assert (HcP5 : code_at im (m_pc s5) (counter_post None)) by (rewrite Hpc5'; exact HcP).
-        pose proof (counter_post_steps im s5 lv d (m_frames s) c0 c1 Hfk5 Hlvx Esub HcP5) as E6.
+        pose proof (counter_post_steps im s5 lv d r5 c0 c1 Hfk5 Hlvx Esub HcP5) as E6.
         set (s6 := with_counter s5 c1 4) in *.
         assert (Hs6 : sim sb s6) by (apply sim_with_counter; exact Hs5).
         assert (Hfjb6 : fetch im (m_pc s6) = Some (jump JC_ALWAYS (- (4 + 1 + (kB + 4))))).
         { unfold s6. cbn [with_counter m_pc]. rewrite Hpc5'. replace (P0 + 1 + kN + 4 + 1 + kB + 4) with (P0 + 1 + kN + 4 + 1 + (kB + 4)) by lia. exact Hfjb. }
         pose proof (jump_always im s6 (- (4 + 1 + (kB + 4))) Hfjb6) as Ejb.
         set (s7 := with_pc s6 (m_pc s6 + - (4 + 1 + (kB + 4)))) in *.
-        destruct (IHf sb s7 sg ssx (lv_set lv LV_COUNTER c1) c1 (sim_with_pc sb s6 _ Hs6)) as [Hsg (n8 & s8 & e8 & E8 & Hs8 & Hpc8 & Hst8 & Ht8)].
+        destruct (IHf sb s7 sg ssx (lv_set lv LV_COUNTER c1) c1 r5 (sim_with_pc sb s6 _ Hs6)) as [Hsg (n8 & s8 & e8 & E8 & Hs8 & Hpc8 & Hst8 & Ht8)].
         { unfold s7. cbn [with_pc m_pc]. unfold s6. cbn [with_counter m_pc]. rewrite Hpc5'. lia. }
         { unfold s7, s6. cbn [with_pc with_counter m_frames]. rewrite Hfk5. reflexivity. }
+        { exact Her5. }
         { apply lv_get_set. }
         { exact Hsk5. }
         { exact Hit. }
@@ -552,22 +568,16 @@ Proof.
         set (s4 := with_pc s3 (m_pc s3 + (kB + 4 + 2))) in *.
         assert (Hfe4 : fetch im (m_pc s4) = Some (I0 OC_END_LOOP)).
         { unfold s4. cbn [with_pc m_pc]. rewrite Hpc3. replace (P0 + 1 + kN + 4 + (kB + 4 + 2)) with (P0 + 1 + kN + 4 + 1 + (kB + 4) + 1) by lia. exact Hfe. }
-        assert (Hfr4 : m_frames s4 = FLoop lv d :: m_frames s) by exact Hfrx.
-        assert (Hst4 : m_stack s4 = m_stack s) by exact Hstx.
-        set (s5 := advance (with_stack (with_frames s4 (m_frames s)) (truncate_to (m_stack s4) d))).
-        assert (E5 : esteps 1 im s4 = Some (s5, [])).
-        { apply (estep1 im s4 _ _ _ Hfe4). cbn [Machine.exec i_op I0]. rewrite Hfr4. reflexivity. }
-        assert (Htr : truncate_to (m_stack s4) d = m_stack s).
-        { rewrite Hst4. unfold d. destruct (m_stack s) as [|v k]; cbn [truncate_to]; [reflexivity|]. rewrite Z.leb_refl. reflexivity. }
+        destruct (end_loop_step im ss1 s4 s lv r (sim_with_pc ss1 s3 _ Hs3) Hfe4 Hfrx Herx Hstx) as (s5 & E5 & Hs5 & Hpc5 & Hst5).
         split; [auto|]. exists (4 + (1 + 1))%nat, s5, ([] ++ ([] ++ [])).
         split; [eapply esteps_app; [exact Et|eapply esteps_app; [exact Ej|exact E5]]|].
-        split.
-        { destruct Hs3 as [Hr Hfu Hg Hfr Hl Hw Hu]. constructor; cbn; try assumption. exact (sim_frames _ _ Hsim). }
-        split; [change (m_pc s5) with (m_pc s3 + (kB + 4 + 2) + 1); rewrite Hpc3; lia|].
-        split; [change (m_stack s5, m_frames s5) with (truncate_to (m_stack s4) d, m_frames s); rewrite Htr; reflexivity|].
+        split; [exact Hs5|].
+        split; [rewrite Hpc5; unfold s4; cbn [with_pc m_pc]; rewrite Hpc3; lia|].
+        split; [exact Hst5|].
         rewrite app_nil_r. reflexivity. }
-    destruct (Hiter fuel ss s2 sig ss' (lv_set [] LV_COUNTER cnt) cnt Hs2) as [Hsig (n & sy & evs & En & Hsy & Hpcy & Hsty & Hty)].
+    destruct (Hiter fuel ss s2 sig ss' (lv_set [] LV_COUNTER cnt) cnt (m_frames s) Hs2) as [Hsig (n & sy & evs & En & Hsy & Hpcy & Hsty & Hty)].
     { unfold s2, s1. cbn [with_counter advance with_pc with_frames with_vars m_pc]. fold P0. reflexivity. }
+    { reflexivity. }
     { reflexivity. }
     { apply lv_get_set. }
     { reflexivity. }
